@@ -144,7 +144,6 @@ pub fn units(tier: Tier, _seed: u64) -> Vec<Unit> {
         u.push(unit!(format!("C09/linear/SuperSmoother({n})/s=2/m={m}"), linear_fading(vec![VK::SuperSmoother(n)], 2usize, m, n)));
         u.push(unit!(format!("C09/linear/CyberCycle({n})/s=2/m={}", m + 8), linear_fading(vec![VK::CyberCycle(n)], 2usize, m + 8, 1usize)));
         let sl = n + 2;
-        if q && n > 48 { continue; } // (the long-prefix variants at N > 48 cost minutes: thorough tier)
         u.push(unit!(format!("C09/linear/Ema({n})/s={sl}/m={m}"), linear_fading(vec![VK::Ema(n)], sl, m, n)));
         u.push(unit!(format!("C09/linear/SuperSmoother({n})/s={sl}/m={m}"), linear_fading(vec![VK::SuperSmoother(n)], sl, m, n)));
         u.push(unit!(format!("C09/linear/CyberCycle({n})/s={sl}/m={}", m + 8), linear_fading(vec![VK::CyberCycle(n)], sl, m + 8, 1usize)));
@@ -163,7 +162,7 @@ pub fn units(tier: Tier, _seed: u64) -> Vec<Unit> {
 pub fn meta() -> Meta {
     Meta {
         functions: vec!["Ema", "LaguerreFilter", "SuperSmoother", "RoofingFilter", "CyberCycle", "TrendFlex", "ReFlex", "LaguerreRSI", "EhlersFisherTransform — each ::{new,update,last}, two instances on streams with different prefixes and a common tail; two-level chains of the linear ones"],
-        bounds: "N in {1..9} (quick) / {1..10,12,16,24,32} (thorough; Roofing to 16, two-level chains to 10), and for Ema/SuperSmoother/CyberCycle also N in {28,41,66} (quick) / {28,41,48,66,100,128}; private prefix length s=2 (quick) / {1,2,4}, and s=N+2 (a prefix covering the whole warm-up phase) for Ema/SuperSmoother/CyberCycle at every N >= 2 (quick: N <= 48); horizon m = 8N common values (16N for Roofing and two-level chains, 32/(1-gamma) for LaguerreFilter, gamma in {0,.2,.5,.8} quick, plus .95 with m=400 thorough); inputs are solver variables bounded by 1; one fixed gain bound 64 for all N (checked at every step up to 16, then every 8th); TrendFlex/ReFlex: output bound on all paths for k=6, fading posed on the deviation term d destructured from the output term d/sqrt(ms), along the comparison path followed by 1 (quick) / 3 (thorough) pseudo-random sample inputs (the `ms > 0` tests are nonlinear; the verdict covers every input following that path); LaguerreRSI: CU-CD = L0-L3 destructured from CU/(CU+CD), m=5/6 with an explicit geometric bound, up to the path cap; EFT: exact halving of the difference once the windows agree",
+        bounds: "N in {1..9} (quick) / {1..10,12,16,24,32} (thorough; Roofing to 16, two-level chains to 10), and for Ema/SuperSmoother/CyberCycle also N in {28,41,66} (quick) / {28,41,48,66,100,128}; private prefix length s=2 (quick) / {1,2,4}, and s=N+2 (a prefix covering the whole warm-up phase) for Ema/SuperSmoother/CyberCycle at every N >= 2; horizon m = 8N common values (16N for Roofing and two-level chains, 32/(1-gamma) for LaguerreFilter, gamma in {0,.2,.5,.8} quick, plus .95 with m=400 thorough); inputs are solver variables bounded by 1; one fixed gain bound 64 for all N (checked at every step up to 16, then every 8th); TrendFlex/ReFlex: output bound on all paths for k=6, fading posed on the deviation term d destructured from the output term d/sqrt(ms), along the comparison path followed by 1 (quick) / 3 (thorough) pseudo-random sample inputs (the `ms > 0` tests are nonlinear; the verdict covers every input following that path); LaguerreRSI: CU-CD = L0-L3 destructured from CU/(CU+CD), m=5/6 with an explicit geometric bound, up to the path cap; EFT: exact halving of the difference once the windows agree",
         outside: vec!["'unbounded length': the claim is the horizon s+m", "N > 32 (N > 128 for the three linear filters named above)", "an instability slower than 2^(1/(8N)) per step", "f64 rounding"],
         assumptions: vec!["term destructuring: where the output term the real code built is num/sqrt(rad) or num/den, obligations are posed on those sub-terms"],
     }
